@@ -7,7 +7,11 @@ coq/theories/Run/RunC15.v):  (15 ty ntapes (op ...)) with ops
 Exhaustive part: every interleaving up to length 5 (quick) / 6 (thorough) over a scalar alphabet
 and over a container alphabet, every interleaving up to length 3 / 4 over their union, operands
 chosen deterministically (most recent objects).  Random part: scripts up to length 60 with
-overwritten registers, partial resets, several containers per list, cross-list operands."""
+overwritten registers, partial resets, several containers per list, cross-list operands.
+Systematic families: cross_tape_cases (every binary kind / mode / form across two lists),
+cross_tape_matmul_shapes (matrix products across lists for every shape class m x k times k x l,
+m k l in 1..3, both container kinds, both orders, four forms), derivs_after_clear_cases
+(derivative sets of every container element after clear, after clear + partial / full reset)."""
 import itertools
 from tools.vlib import sx
 
@@ -323,9 +327,76 @@ def cross_tape_cases():
                                       [7, 2, 0, 1, form], [7, 3, 1, 0, form], [8, 2, 0], [8, 3, 3]]])
 
 
+def cross_tape_matmul_shapes():
+    """matrix multiplication across two lists for EVERY shape class (1x1 x 1x1, row x column,
+    column x row outer products, general m x k times k x l, m k l in 1..3), RecordMatrix and
+    RecordTensor, both operand orders (list 0 x list 1, list 1 x list 0), all four ownership
+    forms; for contrast the same shapes on one list and variables x constants / constants x
+    variables (accepted), followed by derivatives of the accepted products"""
+    for ty in (0, 1):
+        n = (lambda v: [v, 1]) if ty == 0 else (lambda v: v)
+        for tensor in (0, 1):
+            for m in (1, 2, 3):
+                for k in (1, 2, 3):
+                    for ll in (1, 2, 3):
+                        shx = [[0, m], [1, k]]
+                        shy = [[1, k], [2, ll]] if tensor else [[0, k], [1, ll]]
+                        dx = [n(1 + i) for i in range(m * k)]
+                        dy = [n(2 - i) for i in range(k * ll)]
+                        for form in range(4):
+                            yield sx([15, ty, 2, [
+                                [3, 0, 0, tensor, shx, dx], [3, 1, 1, tensor, shy, dy],
+                                [3, 2, 1, tensor, shx, dx], [3, 3, 0, tensor, shy, dy],
+                                [4, 4, tensor, shy, dy], [4, 5, tensor, shx, dx],
+                                [7, 6, 0, 1, form], [7, 7, 2, 3, form],          # across lists: panic
+                                [7, 8, 0, 3, form], [7, 9, 0, 4, form], [7, 10, 5, 1, form],
+                                [8, 8, 0], [8, 9, m * ll - 1], [8, 10, 0], [8, 6, 0], [8, 7, 0]]])
+                    # inner lengths differ as well: still a panic, whichever check comes first
+                    shz = [[1, k + 1], [2, 1]] if tensor else [[0, k + 1], [1, 1]]
+                    yield sx([15, ty, 2, [[3, 0, 0, tensor, [[0, m], [1, k]], [n(1)] * (m * k)],
+                                          [3, 1, 1, tensor, shz, [n(2)] * (k + 1)],
+                                          [7, 2, 0, 1, m + k], [7, 3, 1, 0, m + k], [8, 0, 0]]])
+
+
+def derivs_after_clear_cases():
+    """derivative sets of container elements after clear (stale: panics or in-range stale
+    positions) and after clear + reset: a variables container, a unary result and a product on
+    list 0; clear; j new entries (0..3 fresh scalar variables) and optionally a reset of the
+    first container / of everything; then derivatives of EVERY element (and one index past the
+    end) of each container, and of a record"""
+    for ty in (0, 1):
+        n = (lambda v: [v, 1]) if ty == 0 else (lambda v: v)
+        for tensor in (0, 1):
+            sh = [[0, 2], [1, 2]]
+            shy = [[1, 2], [2, 2]] if tensor else sh
+            for j in range(4):
+                for reset in (0, 1, 2, 3):
+                    ops = [[3, 0, 0, tensor, sh, [n(1), n(2), n(3), n(4)]],
+                           [3, 1, 0, tensor, shy, [n(2), n(-1), n(1), n(3)]],
+                           [5, 2, 0, 11, n(2), 0, j], [7, 3, 0, 1, j], [1, 4, 0, n(5)],
+                           [6, 5, 0, 2, 4, 4, j], [9, 0]]
+                    ops += [[1, 6 + i, 0, n(7 + i)] for i in range(j)]
+                    if reset == 1:
+                        ops += [[10, 0]]
+                    elif reset == 2:
+                        ops += [[11, 0]]
+                    elif reset == 3:
+                        ops += [[10, 4], [10, 1], [10, 0]]
+                    for reg in (0, 1, 2, 3):
+                        ops += [[8, reg, e] for e in range(5)]
+                    ops += [[8, 4, 0], [8, 5, 0]]
+                    if reset:
+                        # the computation again on the reset inputs, and its derivative sets
+                        ops += [[5, 2, 0, 11, n(2), 0, j], [7, 3, 0, 1, j]]
+                        ops += [[8, reg, e] for reg in (2, 3) for e in range(5)]
+                    yield sx([15, ty, 2, ops])
+
+
 def gen(tier, rng):
     quick = tier == "quick"
     yield from cross_tape_cases()
+    yield from cross_tape_matmul_shapes()
+    yield from derivs_after_clear_cases()
     yield from exhaustive(SCALAR, 5 if quick else 6, 0)
     yield from exhaustive(CONT, 4 if quick else 5, 0, (0, 1))
     yield from exhaustive(CONT, 5, 1, (0,) if quick else (0, 1))
